@@ -280,3 +280,46 @@ def erase_stereo_at(smi, idxs):
     for i in idxs:
         m.GetAtomWithIdx(i).SetChiralTag(Chem.ChiralType.CHI_UNSPECIFIED)
     return Chem.MolToSmiles(m)
+
+
+# ------------------------------------------------------------------------------------------- Spec operations (C08 / C14)
+
+def anomeric_carbon(m):
+    """(carbon idx, ring O idx) of the hemiacetal/hemiketal carbon of a cyclic monosaccharide, or None"""
+    ring = main_ring(m)
+    if ring is None:
+        return None
+    o = [i for i in ring if m.GetAtomWithIdx(i).GetSymbol() == "O"][0]
+    for nb in m.GetAtomWithIdx(o).GetNeighbors():
+        if nb.GetIdx() in ring and any(x.GetSymbol() in ("O", "N") and x.GetIdx() not in ring and not x.IsInRing() for x in nb.GetNeighbors()):
+            return nb.GetIdx(), o
+    return None
+
+
+def reduce_to_alditol(smi):
+    """Spec.reduce: open the hemiacetal ring and reduce the carbonyl: the anomeric carbon gives up its bond to the ring oxygen and its
+    stereo mark; both ends pick up a hydrogen. Every other atom, bond and stereocentre stays."""
+    m = mol(smi)
+    if m is None:
+        return None
+    ac = anomeric_carbon(m)
+    if ac is None:
+        return None
+    c, o = ac
+    w = Chem.RWMol(m)
+    w.RemoveBond(c, o)
+    w.GetAtomWithIdx(c).SetChiralTag(Chem.ChiralType.CHI_UNSPECIFIED)
+    for i in (c, o):
+        w.GetAtomWithIdx(i).SetNoImplicit(False)
+        w.GetAtomWithIdx(i).SetNumExplicitHs(0)
+    try:
+        Chem.SanitizeMol(w)
+    except Exception:
+        return None
+    out = Chem.MolToSmiles(w)
+    return Chem.MolToSmiles(Chem.MolFromSmiles(out))
+
+
+def formula_of(smi):
+    m = mol(smi)
+    return rdMolDescriptors.CalcMolFormula(m) if m is not None else None
